@@ -21,7 +21,7 @@ RULE = (
 ASSUMPTIONS = [
     "scope = narrower reading of 'one-sided support': causal fs < min(max right_i, right of the widest filter); centered fs < max(right_i-left_i)//2",
     "alignment constants of the documented conventions are pinned (see vf/oracle/si_ref.py)",
-    "tolerance (linear domain): float64/longdouble 1e-7 rel + 1e-10 S; float32 1e-4 / 1e-6; float16 1e-2 / 1e-3 (result dtype and shape are always strict)",
+    "tolerance (linear domain): float64/longdouble 1e-7 rel + 1e-10 S; float32 1e-4 / 1e-6; float16 2e-2 / 2e-3 (result dtype and shape are always strict); plus the rounding floor of an FFT convolution (256 eps max|x| sum|h| per sample) and two quanta of a float16/float32 result",
 ]
 ANCHOR_FILES = ("src/pydrobert/speech/compute.py",)
 EXHAUSTIVE_PARTS = []
@@ -106,7 +106,16 @@ class SiMonitor:
         if not np.all(np.isfinite(wantc)):
             self.rec.count("si_overflow_in_narrow_dtype")
             return
-        ok, i, detail = compare_features(got.astype(np.float64), wantc, use_log, config.LOG_FLOOR_VALUE, rtol, atol)
+        # rounding floor of an FFT-based convolution: delta = 256 eps |x|max sum|h| on every sample of x*h,
+        # i.e. delta on a magnitude coefficient and 2 sqrt(coef) delta + delta^2 on a power coefficient;
+        # plus two quanta of a narrow result dtype (float16 results live among its subnormals)
+        delta = 256 * np.finfo(np.float64).eps * R.si_ref.last_yscale
+        lin = np.exp(want) if use_log else want
+        extra = (2 * np.sqrt(np.abs(lin)) * delta + delta ** 2) if use_power else delta
+        if x.dtype in (np.float16, np.float32) and not use_log:
+            with np.errstate(over="ignore"):
+                extra = extra + 2 * np.spacing(np.abs(wantc).astype(x.dtype)).astype(np.float64)
+        ok, i, detail = compare_features(got.astype(np.float64), wantc, use_log, config.LOG_FLOOR_VALUE, rtol, atol, 0.0, extra)
         if not ok:
             col = None if i is None else i[1]
             which = "energy" if (energy and col == 0) else "filter %s" % (None if col is None else col - int(energy))
